@@ -1407,6 +1407,18 @@ def interplay_docs() -> list[tuple[str, dict]]:
             S = {"Item": {"type": "object", "properties": {"k": {"type": "string"}}}, "Colour": {"type": "string", "enum": ["red", "green"]}, "Basket": {"type": "object", "required": ["single_inline", "entries"], "properties": props}}
             mk(f"single_member_union_{kw}_{version}", schemas=S, version=version,
                paths={"/b": {"post": {"operationId": "create_basket", "requestBody": {"content": {"application/json": {"schema": R("Basket")}}}, "responses": {"200": {"description": "ok", "content": {"application/json": {"schema": R("Basket")}}}}}}})
+    # names that differ as text but derive the same Python identifier, used in *different* scopes (models, operations) for references to one
+    # component: each scope keeps its own spelling on the wire
+    spell = ["accountCode", "account_code", "Account-Code", "account code", "ACCOUNT_CODE", "account.code"]
+    S = {"Code": {"type": "string", "enum": ["a1", "b2"]}, "Stamp": {"type": "string", "format": "date-time"}, "Inner": {"type": "object", "properties": {"k": {"type": "string"}}}}
+    P = {}
+    for i_, nm in enumerate(spell):
+        S[f"Holder{i_}"] = {"type": "object", "required": [nm], "properties": {nm: R("Code"), f"when {i_}"[: 4 + i_ % 2]: R("Stamp"), "inner": R("Inner")}}
+        S[f"Opt{i_}"] = {"type": "object", "properties": {nm: R("Code"), nm + "2": R("Inner")}}
+        P[f"/acct/{i_}"] = {"get": {"operationId": f"get_acct_{i_}", "parameters": [{"name": nm if " " not in nm and "." not in nm else nm.replace(" ", "_x_").replace(".", "_y_"), "in": "query", "required": i_ % 2 == 0, "schema": R("Code")},
+                                                                               {"name": "since", "in": "query", "schema": R("Stamp")}],
+                                    "responses": {"200": {"description": "ok", "content": {"application/json": {"schema": R(f"Holder{i_}")}}}}}}
+    mk("same_identifier_other_spelling", schemas=S, paths=P)
     # tags and operation ids named after the package's own modules and dunder files
     for tag in ("types", "errors", "client", "models", "api", "init", "__init__", "default", "py.typed", "import", "None"):
         mk(f"tag_{tag}", schemas={"M": {"type": "object", "properties": {"a": {"type": "string"}}}},
